@@ -10,6 +10,7 @@ import stage_disc
 import stage_doc
 import stage_e2e
 import stage_gen
+import stage_meta
 import stage_names
 import stage_types
 
@@ -47,6 +48,8 @@ PROPS = {
     "C08": spec("C08", [stage_det.run, stage_ana.run, stage_gen.run]),
     "C09": spec("C09", [stage_names.run, stage_gen.run], [T], ["StubGen.Tables.name_annotation_form"]),
     "C10": spec("C10", [stage_gen.run, stage_e2e.run]),
+    "C11": spec("C11", [stage_gen.run, stage_e2e.run]),
+    "C18": spec("C18", [stage_meta.run, stage_gen.run]),
     "C12": spec("C12", [stage_ana.run, stage_e2e.run]),
     "C13": spec("C13", [stage_doc.run, stage_gen.run, stage_e2e.run]),
     "C14": spec("C14", [stage_ana.run, stage_e2e.run]),
